@@ -121,6 +121,20 @@ def run(tier, seed):
     specs = []
     makers = [lambda r: gen.gen_core(r, fallible=0.2, sugar=0.25, pat=0.4), gen2.gen_macros, gen2.gen_prec, lambda r: gen.gen_loc(r)]
     tags = ["td_lane", "ra_lane"]
+    # deterministic probe of known finding F6: rename S to `E<tightest level>` next to an annotated E
+    import random as _random
+    for ps in range(50):
+        pg = gen2.gen_prec(_random.Random(7000 + ps))
+        e_nt = pg.nt("E")
+        lv = sorted({a.prec[0] for a in e_nt.alts if a.prec and a.prec[0] is not None})
+        if len(lv) >= 2:
+            break
+    pmap_ = {"S": "E%d" % lv[0]}
+    pg2 = rename(pg, pmap_, {})
+    pairs.append((pg, pg2, gmodel.desugar(pg), pmap_, {}))
+    for tag in tags:
+        specs.append(dict(name="a0_%s" % tag, text=gmodel.grammar_text(pg), cfg=tag, starts=pg.starts(), kind="extern"))
+        specs.append(dict(name="b0_%s" % tag, text=gmodel.grammar_text(pg2), cfg=tag, starts=pg2.starts(), kind="extern"))
     tries = 0
     while len(pairs) < n and tries < n * 4:
         tries += 1
@@ -155,7 +169,11 @@ def run(tier, seed):
             base["rep2"] = "*"
         ren = dict(base)
         ren["p1"], ren["p2"] = rng.sample(["v", "e", "__0", "__tokens", "__lookahead", "__sym0", "input2", "__1", "__nt", "errors"], 2)
+        if i == 0:
+            ren["p1"], ren["p2"], base["rep"], ren["rep"] = "v", "num2", "+", "+"     # deterministic probe of known finding F9
         ren["b1"], ren["b2"] = rng.sample(["v", "e", "__0", "__sym1", "__temp0", "__start", "x"], 2)
+        if i == 0:
+            ren["b1"], ren["b2"] = "items", "it"
         if ren["b1"] == ren["p1"] or ren["b1"] == ren["p2"] or ren["b2"] == ren["p1"] or ren["b2"] == ren["p2"]:
             continue
         ren["ty"] = rng.choice(["T", "__T", "__TOKEN", "__TOKENS", "Tok2", "__0T", "L", "E_"])
